@@ -179,6 +179,16 @@ def symbols(srv, f):
     return sorted((s["name"], s["selectionRange"]["start"]["line"] + 1) for s in (r.get("result") or []))
 
 
+def ws_symbols(srv, rel):
+    """(name, line) of every workspace symbol located in a document whose path ends with rel, whatever the spelling
+    of the directories above it"""
+    r = srv.workspace_symbol("")
+    if not r["answered"]:
+        raise Inconclusive("workspace/symbol unanswered")
+    return sorted((s["name"], s["location"]["range"]["start"]["line"] + 1) for s in (r.get("result") or [])
+                  if s["location"]["uri"].endswith("/" + rel))
+
+
 def expected_symbols(text):
     m = FileModel(text)
     return sorted((d["name"], d["line"]) for d in m.defs)
@@ -231,8 +241,19 @@ def one_server_run(ctx, kind, placement, further_kind, orders_seen, it):
     env = {"VERIF_EVENT_LOG": evlog, "VERIF_DELAY": f"{ctx.seed + it}:200000"}
     if placement != "unsynchronised":
         env.update({"VERIF_SCAN_GATE": gate, "VERIF_SCAN_GATE_MATCH": "/" + rel})
-    srv = LSP(srv_bin(), root, env=env, locklog=os.path.join(ctx.scratch_root, "lock_srv.log"))
-    tag = ("srv", kind, placement, further_kind)
+    # the editor may name the workspace (and its documents) through a symbolic link
+    via_link = ctx.rng.random() < 0.34
+    lroot = None
+    if via_link:
+        lroot = os.path.join(ctx.scratch("lnk"), "ws_link")
+        if os.path.lexists(lroot):
+            os.unlink(lroot)
+        os.symlink(root, lroot)
+    Freal = F
+    srv = LSP(srv_bin(), lroot or root, env=env, locklog=os.path.join(ctx.scratch_root, "lock_srv.log"))
+    tag = ("srv", kind, placement, further_kind) + (("via_symlink",) if via_link else ())
+    if via_link:
+        F = os.path.join(lroot, rel)
     try:
         srv.initialize(wait_scan=False)
         if placement == "open_first":
@@ -255,10 +276,13 @@ def one_server_run(ctx, kind, placement, further_kind, orders_seen, it):
         if not srv.wait_log("Workspace scan complete", timeout=60):
             ctx.violation({"kind": "scan-did-not-complete", "tag": tag}, {"stderr": srv.stderr_text()[-500:]})
             return
-        order = observed_order(evlog, F)
+        order = observed_order(evlog, Freal)
         orders_seen.add((placement, order))
         got = symbols(srv, F)
         want = expected_symbols(buf)
+        gw = ws_symbols(srv, rel)
+        if got == want and gw != want:
+            got = gw            # the document's own outline is right, the workspace-wide listing shows more / less for F
         ctx.judged()
         if got != want:
             both = sorted(expected_symbols(buf) + expected_symbols(disk))
@@ -278,6 +302,9 @@ def one_server_run(ctx, kind, placement, further_kind, orders_seen, it):
             ctx.count("change_without_publish")
         got = symbols(srv, F)
         want = expected_symbols(ftext)
+        gw = ws_symbols(srv, rel)
+        if got == want and gw != want:
+            got = gw
         ctx.judged()
         bad_lens = refs_ok(ctx, srv, F, ftext, tag)
         if got != want or bad_lens is not None:
